@@ -50,7 +50,9 @@ PROP = {
         {"name": "c10_arrfault_2", "src": "c04_arrfault.cpp", "sanitize": "asan", "flags": ["-DAF_PART=2"], "timeout_quick": 600},
         {"name": "c10_arrfault_3", "src": "c04_arrfault.cpp", "sanitize": "asan", "flags": ["-DAF_PART=3"], "timeout_quick": 600},
         {"name": "c10_arrfault_4", "src": "c04_arrfault.cpp", "sanitize": "asan", "flags": ["-DAF_PART=4"], "timeout_quick": 600},
+        {"name": "c10_arrfault_6", "src": "c04_arrfault.cpp", "sanitize": "asan", "flags": ["-DAF_PART=6"], "timeout_quick": 600},
         {"name": "c10_segfault_2", "src": "c04_segfault.cpp", "sanitize": "asan", "flags": ["-DSF_PART=2"], "timeout_quick": 600},
+        {"name": "c10_segfault_3", "src": "c04_segfault.cpp", "sanitize": "asan", "flags": ["-DSF_PART=3"], "timeout_quick": 600},
     ] + [
         {"name": "c10_treefault_%d" % k, "src": "c04_treefault.cpp", "sanitize": "asan", "flags": ["-DTF_PART=%d" % k], "timeout_quick": 600}
         for k in range(1, 6)
@@ -61,7 +63,7 @@ PROP = {
              "key absent / present in the destination followed by re-insertion - each with every k-th allocation, element copy and functor failure. "
              "Tree merges with a history (700 quick / 6000 thorough per tree type, node capacities 4/1, 4/2, 6/1 indexed, 32): one tree built ascending or shuffled, a burst of insertions next to the edge that faces the other tree, 0..maxR removals at that edge (drained edge leaves), the other tree of 1..6*maxN keys below or above, merge in either direction; conservation by identities, element-object count, order, no copies. "
              "Model level: the mergeto / rempred / ext / reins operations inside the C01 histories (chained-bucket part). "
-             "Arrays, model level (c04_arrfault parts 2-4, engine arrfault; see C04's rule (c)): InsertVar / Insert(Item&&) / Insert(n copies) / Insert(range) / "
+             "Arrays, model level (c04_arrfault parts 2-4 and 6, c04_segfault parts 2-3; part 6 / 3: items that are not nothrow-movable but nothrow-swappable; engine arrfault; see C04's rule (c)): InsertVar / Insert(Item&&) / Insert(n copies) / Insert(range) / "
              "Remove(index,count) / Remove(filter) on Array / ArrayIntCap<2> of nothrow-move and copy-only items with and without throwing assignment, k-th fallible "
              "step (allocation, copy, copy-only move, assignment) failing; the model predicts the complete state incl. the moved-from pattern - exact, because the "
              "harness's item types leave their operands untouched when they throw; for other item types only count, validity and the ledger are determined (theorem). "
